@@ -36,6 +36,9 @@ repairs and as the reproduction of the recorded finding.
                       object is being constructed; the runtime polls, initialisation completes (registration closed, the
                       agents barrier sized without it) and an invocation is delivered; then the registration continues:
                       it must be refused, and the invocation must not wait for that extension.
+  stale-shutdown      F-C05-2 (fixed ef2be96): the FastInvoke goroutine of a request that timed out while waiting for init
+                      is held where its init wait ended; the reset completes, the next request is served by a new
+                      environment; then the goroutine continues: as found it shut that environment down.
 """
 from scen import Scn
 
@@ -62,47 +65,66 @@ def watch_late_cancel(sid, timeout_ms=400):
 
 
 def clear_vs_invoke(sid, timeout_ms=400):
+    """F-C03-1: a handler queued on the handler mutex while a reset runs must not start before the reset has re-armed
+    the context.  Since the repair of F-C05-2 the handler that can be queued there is the ghost of F-C05-1 (the
+    FastInvoke of a request whose timer expires right after its initialisation ended), so this schedule also
+    exhibits that known finding."""
     subs = {"e1": ["INVOKE"]}
-    s = Scn(sid, ext=["e1"], timeout_ms=timeout_ms, opWaitMs=6000)
+    s = Scn(sid, ext=["e1"], timeout_ms=timeout_ms, opWaitMs=8000)
     s.meta(family=FAMILY, schedule="clear-vs-invoke")
     s.init()
     s.await_exec(base="e1")
+    s.register("ext:e1", subs["e1"])
+    s.await_exec(kind="rt")
+    s.poll("ext:e1")
+    s.hold("server.beforeFastInvoke", 1)
+    it = s.invoke(size=5, seed=7)
+    s.call("rt", "next", async_=True)              # init completes; the request's FastInvoke goroutine is held
+    s.until_held("server.beforeFastInvoke")
     s.hold("rapid.reinitialize", 1)
     s.hold("init.afterRegisterCount", 1)
-    it = s.invoke(size=5, seed=7)
-    s.until_held("rapid.reinitialize")
-    s.sleep(40)                                    # as found: the queued invoke starts its init and is held
+    s.until_held("rapid.reinitialize")             # timeout, reset: everything torn down, about to re-arm
+    m = s.mark()
+    s.release("server.beforeFastInvoke")           # its invoke queues on the handler mutex ...
+    s.sleep(40)                                    # ... (as found: runs, sets the register count, is held)
     s.release("rapid.reinitialize")
     s.wait(it)
     s.sleep(20)
-    s.release("init.afterRegisterCount")           # nothing is held there on the repaired code
+    s.release("init.afterRegisterCount")
+    s.expect_exec(base="e1", since=m)              # the re-armed context initialises normally
     s.sleep(60)
-    s.recover(subs)
+    s.register("ext:e1", subs["e1"])               # only now may the runtime be launched
+    s.expect_exec(kind="rt", since=m)
+    s.sleep(50)
     return s.done()
 
 
 def ghost_invoke(sid, timeout_ms=400):
-    subs = {"e1": ["INVOKE"]}
-    s = Scn(sid, ext=["e1"], timeout_ms=timeout_ms, opWaitMs=6000)
+    """F-C05-1 as it remains after the repair of F-C05-2: the FastInvoke goroutine of a request whose timer expires
+    right when its (successful) initialisation ends still finds the reservation; held before FastInvoke and
+    released while the reset goroutine is held before Server.Clear, it runs a complete inline initialisation and
+    dispatch for a caller that is about to be answered with the timeout."""
+    s = Scn(sid, ext=[], timeout_ms=timeout_ms, opWaitMs=8000)
     s.meta(family=FAMILY, schedule="ghost-invoke")
     s.init()
-    s.await_exec(base="e1")
+    s.await_exec(kind="rt")
+    s.hold("server.beforeFastInvoke", 1)
     s.hold("server.resetBeforeClear", 1)
     it = s.invoke(size=5, seed=7)
-    s.until_held("server.resetBeforeClear")
-    s.sleep(100)
+    p0 = s.call("rt", "next", async_=True)          # init completes, the request's FastInvoke goroutine is held
+    s.until_held("server.beforeFastInvoke")
+    s.until_held("server.resetBeforeClear")        # the timeout reset has torn the environment down
+    m = s.mark()
+    s.release("server.beforeFastInvoke")           # the reservation is still there: the ghost starts
+    s.await_exec(kind="rt", since=m)
+    s.sleep(30)
     s.release("server.resetBeforeClear")
     s.wait(it)
+    p1 = s.call("rt", "next", async_=True)          # the new runtime is handed the dead request
+    s.wait(p1)
+    s.call("rt", "response", id="current", body="answer-to-nobody")
     s.sleep(50)
-    m = s.mark()
-    it2 = s.invoke(size=6, seed=8)
-    s.sleep(50)
-    s.register("ext:e1", ["INVOKE"])
-    s.await_exec(kind="rt", since=m)
-    s.poll("ext:e1")
-    t2 = s.call("rt", "next", async_=True)
-    s.wait(t2)
-    s.call("rt", "response", id="current", body="answer")
+    it2 = s.invoke(size=6, seed=8)                  # and the next genuine request suffers for it
     s.wait(it2)
     return s.done()
 
@@ -236,6 +258,22 @@ def register_vs_close(sid, timeout_ms=2000):
     return s.done()
 
 
+def stale_shutdown(sid, timeout_ms=400):
+    s = Scn(sid, ext=[], timeout_ms=timeout_ms, opWaitMs=8000)
+    s.meta(family=FAMILY, schedule="stale-shutdown")
+    s.init()
+    s.await_exec(kind="rt")                       # the runtime never polls: init does not complete
+    s.hold("server.initWaitFailed", 1)
+    it = s.invoke(size=5, seed=7)
+    s.until_held("server.initWaitFailed")         # timeout, reset, init ended by the reset
+    s.wait(it)
+    tags = s.recover({})
+    s.release("server.initWaitFailed")
+    s.sleep(80)
+    s.round(tags, {})
+    return s.done()
+
+
 def scenarios(prefix, which=("watch-late-cancel", "clear-vs-invoke", "ghost-invoke")):
     out = []
     mk = {"watch-late-cancel": watch_late_cancel, "clear-vs-invoke": clear_vs_invoke, "ghost-invoke": ghost_invoke,
@@ -243,6 +281,7 @@ def scenarios(prefix, which=("watch-late-cancel", "clear-vs-invoke", "ghost-invo
           "late-release": late_release,
           "dispatch-held": dispatch_held,
           "register-vs-close": register_vs_close,
+          "stale-shutdown": stale_shutdown,
           "stale-error-in-flight": lambda sid: stale_in_flight(sid, "error"),
           "stale-response-in-flight": lambda sid: stale_in_flight(sid, "response")}
     for i, w in enumerate(which):
